@@ -62,6 +62,7 @@ func (e *establishLinkHandler) HandleValueAdded(inst directive.Instance, val dir
 			WithField("local-peer", vl.GetLocalPeer().String()).
 			Debug("starting peer hold-open tracking")
 		go func() {
+			verifGate("acquire")
 			e.mtx.Lock()
 			e.rigidRef = e.di.AddReference(nil, false)
 			e.mtx.Unlock()
